@@ -55,6 +55,16 @@ def run(ctx, replay):
     else:
         comps = DRIVERS
     nraces = 0
+    if not replay:
+        # design level: the lock discipline of the shared metric counters, all interleavings of 2-3 writers and 2 readers
+        lc = lambda g, w: {"Writers": vlib.Raw("{" + ", ".join('"w%d"' % i for i in range(1, w + 1)) + "}"),
+                           "Readers": vlib.Raw('{"r1", "r2"}'), "Guard": g}
+        inv = ["NoLostUpdate", "NoDataRace"]
+        vlib.mc(ctx, "LockDiscipline", vlib.make_cfg(constants=lc("mutex", 2 if quick else 3), invariants=inv), "locks-mutex", workers=4)
+        vlib.mc(ctx, "LockDiscipline", vlib.make_cfg(constants=lc("none", 2), invariants=["NoLostUpdate"]), "locks-asis-unguarded",
+                expect="NoLostUpdate", workers=4)
+        vlib.mc(ctx, "LockDiscipline", vlib.make_cfg(constants=lc("rlock", 2), invariants=inv), "locks-asis-write-under-rlock",
+                expect="NoDataRace", workers=4)
     for comp, module, cq, ct in comps:
         cfg = cq if quick else ct
         tp = vlib.os.path.join(ctx.work, "trace-c09-%s.ndjson" % comp)
